@@ -218,6 +218,7 @@ func VerifC20Tree() {
 	c20Chunk = zz.Param("CHUNK", 7)
 	srcLen := []int{0, 5, 4090}[zz.Choice("binlen", 3)]
 	repack := zz.Param("REPACK", 0) == 1 && zz.Bool("targetHoldsAnEarlierLargerPack")
+	sp := zz.Choice("dirSpelling", zz.Param("SPELLINGS", 1)) // how the user spells the project directory
 	type fileT struct {
 		path string
 		id   int
@@ -272,7 +273,7 @@ func VerifC20Tree() {
 			for _, f := range files {
 				put(f.path, content(f))
 			}
-		}, shape == 3, repack)
+		}, shape == 3, repack, sp)
 		return
 	}
 	memReset()
@@ -300,7 +301,9 @@ func VerifC20Tree() {
 		p0 := &CLIPacker{EntryFile: "root0/main.ecal", Dir: &dir0, SourceBinary: &src0, TargetBinary: &target0, LogOut: &log0}
 		zz.Assert(p0.Pack() == nil, "C20.pack-succeeds")
 	}
-	dir, src, target := "root", "src.bin", "out.bin"
+	// the project directory as the user may spell it (the archive holds paths relative to it, whatever the spelling)
+	dir := []string{"root", "root/", "./root", "root/../root", "root/."}[sp]
+	src, target := "src.bin", "out.bin"
 	var log bytes.Buffer
 	p := &CLIPacker{EntryFile: "root/main.ecal", Dir: &dir, SourceBinary: &src, TargetBinary: &target, LogOut: &log}
 	err := p.Pack()
@@ -326,7 +329,7 @@ func VerifC20Tree() {
 }
 
 // c20NativeTree: the same tree on the real file system with the real Pack and RunPackedBinary.
-func c20NativeTree(srcLen int, entry string, want int, fill func(put func(string, []byte)), hollow bool, repack bool) {
+func c20NativeTree(srcLen int, entry string, want int, fill func(put func(string, []byte)), hollow bool, repack bool, sp int) {
 	tmp, err := os.MkdirTemp("", "c20t")
 	if err != nil {
 		panic(err)
@@ -357,7 +360,8 @@ func c20NativeTree(srcLen int, entry string, want int, fill func(put func(string
 		p0 := &CLIPacker{EntryFile: filepath.Join(root0, "main.ecal"), Dir: &root0, SourceBinary: &src, TargetBinary: &target, LogOut: &log}
 		zz.Assert(p0.Pack() == nil, "C20.pack-succeeds")
 	}
-	p := &CLIPacker{EntryFile: filepath.Join(root, "main.ecal"), Dir: &root, SourceBinary: &src, TargetBinary: &target, LogOut: &log}
+	spelled := []string{root, root + "/", tmp + "/./root", root + "/../root", root + "/."}[sp]
+	p := &CLIPacker{EntryFile: filepath.Join(root, "main.ecal"), Dir: &spelled, SourceBinary: &src, TargetBinary: &target, LogOut: &log}
 	zz.Assert(p.Pack() == nil, "C20.pack-succeeds")
 	osArgs = []string{target}
 	exited, code := false, -1
